@@ -4,11 +4,11 @@ from fractions import Fraction
 
 from engine.harness import Harness
 from engine.vtime import real_timedelta
-from harness.common import T0, SEC, run_async
+from harness.common import T0, SEC, run_async, try_consume
 from harness.history import ADAPTERS
 
 
-def h15(S, backend="mem", backlog=3, steps=3, window=None, foreign=True, retried_first=True):
+def h15(S, backend="mem", backlog=3, steps=3, window=None, foreign=True, retried_first=True, second_consumer=False):
     from repid.data._key import RoutingKey
     import repid.data._parameters as P
 
@@ -29,6 +29,10 @@ def h15(S, backend="mem", backlog=3, steps=3, window=None, foreign=True, retried
             cons = await A._consumer("NORMAL") if False else None
         if window is not None and backend == "redis":
             A.cons["NORMAL"].PREFETCH_AMOUNT = window
+        other_cons = None
+        if second_consumer:
+            other_cons = A.broker.get_consumer("default", ["other"])
+            await other_cons.start()
         nid = 0
 
         async def enqueue(own, past_due=False):
@@ -52,10 +56,29 @@ def h15(S, backend="mem", backlog=3, steps=3, window=None, foreign=True, retried
         for step in range(steps):
             held = [i for i, v in info.items() if v["place"] == "held"]
             menu = [("enqueue", None), ("consume", None)] + [("reject", h) for h in held] + [("ack", h) for h in held[:1]]
+            if second_consumer:
+                menu += [("consume-other-topic", None), ("enqueue-other-topic", None)]
             op, arg = menu[S.pick(f"op{step}", len(menu))]
             trace.append((op, arg))
             if op == "enqueue":
                 await enqueue(True)
+            elif op == "enqueue-other-topic":
+                await enqueue(False)
+            elif op == "consume-other-topic":
+                # a second consumer serving the other topic on the same queue: its messages keep their order too
+                waiting = [i for i, v in info.items() if v["place"] == "waiting" and not v["own"]]
+                got = await try_consume(other_cons)
+                if got is None:
+                    S.check("waiting-message-is-delivered", not waiting, info=f"{trace}: other-topic consumer got nothing, waiting: {waiting}")
+                    continue
+                r = got[0].id_
+                S.cover("other-topic-consumed")
+                S.check("delivered-own-waiting-message", r in waiting, info=f"{trace}: other-topic consumer got {r}, waiting {waiting}")
+                if r not in waiting:
+                    return
+                older = [x for x in waiting if x != r and info[x]["since"] < info[r]["since"]]
+                S.check("fifo-not-overtaken", not older, info=f"{trace}: other-topic consumer got {r} while older {older} still waiting")
+                info[r]["place"] = "held-other"
             elif op == "consume":
                 waiting = [i for i, v in info.items() if v["place"] == "waiting" and v["own"]]
                 got = await A.consume("NORMAL")
@@ -123,6 +146,15 @@ HARNESSES = [
             bounds={"initial backlog": "2 quick / 3 thorough messages, each own-topic or foreign-topic (symbolic flags); the first may carry a past due time (a retried/rescheduled message)",
                     "then": "4 / 5 operations from {enqueue own, consume, reject a held message, ack}, then drain"},
             functions=["connections/in_memory/consumer.py:_InMemoryConsumer.consume"], covers=["consumed", "drained", "returned-message-redelivered"]),
+    Harness(name="H15-mem-two-topics", scenario=_mk("mem", second_consumer=True), workers=16, budget_s=900,
+            params={"quick": {"backlog": 3, "steps": 3}, "thorough": {"backlog": 4, "steps": 4}},
+            bounds={"two consumers": "one per topic on the same in-memory queue", "backlog": "3 / 4 messages of either topic", "then": "3 / 4 operations incl. consumes by either consumer"},
+            functions=["connections/in_memory/consumer.py:_InMemoryConsumer.consume"], covers=["consumed", "other-topic-consumed"]),
+    Harness(name="H15-redis-returned", scenario=_mk("redis", foreign=False), workers=8,
+            params={"quick": {"backlog": 1, "steps": 4}, "thorough": {"backlog": 2, "steps": 5}},
+            bounds={"backlog": "1 / 2 messages, the first may carry a past due time (a retried message: it lives in the delayed set)", "then": "4 / 5 operations incl. reject and later enqueues"},
+            functions=["connections/redis/message_broker.py:RedisMessageBroker.reject", "connections/redis/consumer.py:_RedisConsumer.consume_or_none"],
+            covers=["consumed", "returned-message-redelivered"], stubs=["fake Redis server"]),
     Harness(name="H15-redis-small-window", scenario=_mk("redis"), workers=16, budget_s=900,
             params={"quick": {"backlog": 4, "steps": 2, "window": 2}, "thorough": {"backlog": 5, "steps": 3, "window": 3}},
             bounds={"fetch window": "PREFETCH_AMOUNT set to 2 (quick) / 3 (thorough) on the consumer instance so that the backlog is longer than the window",
